@@ -118,14 +118,14 @@ Qed.
 
 (* ---------------------------------------------------------------- from the bytes (composition with C26) *)
 Require V.Axml.PoolProofs V.Axml.AxmlDocument V.Axml.AxmlAttrs.
-Lemma queries_from_bytes (utf8_flag : bool) ss padding sysattr decls t :
-  Forall (PoolProofs.fits utf8_flag) ss -> Z.of_nat (length ss) < NONE -> Forall AxmlAttrs.wf_decl decls ->
-  AxmlAttrs.wf_atree ss t -> AxmlAttrs.atail t = NONE ->
+Lemma queries_from_bytes (utf8_flag : bool) ss padding sysattr ids decls t :
+  Forall (PoolProofs.fits utf8_flag) ss -> Z.of_nat (length ss) < NONE -> AxmlAttrs.wf_res ids -> Forall AxmlAttrs.wf_decl decls ->
+  AxmlAttrs.wf_atree ss sysattr ids t -> AxmlAttrs.atail t = NONE ->
   28 + 4 * Z.of_nat (length ss) + PoolModel.len (concat (map (if utf8_flag then PoolProofs.entry8 else PoolProofs.entry16) ss)) < 4294967296 ->
-  PoolModel.len (AxmlDocument.doc_bytes utf8_flag ss padding (AxmlAttrs.adoc_items decls t)) < 4294967296 ->
-  option_map analyse (match parse_axml sysattr (AxmlDocument.doc_bytes utf8_flag ss padding (AxmlAttrs.adoc_items decls t)) with Ok r => r | Err _ => None end)
-  = Some (analyse (AxmlAttrs.atree_of ss decls t)).
+  PoolModel.len (AxmlDocument.doc_bytes utf8_flag ss padding (AxmlDocument.IResMap ids :: AxmlAttrs.adoc_items decls t)) < 4294967296 ->
+  option_map analyse (match parse_axml sysattr (AxmlDocument.doc_bytes utf8_flag ss padding (AxmlDocument.IResMap ids :: AxmlAttrs.adoc_items decls t)) with Ok r => r | Err _ => None end)
+  = Some (analyse (AxmlAttrs.atree_of ss sysattr ids decls t)).
 Proof.
-  intros H1 H2 H3 H4 H5 H6 H7.
-  rewrite (AxmlAttrs.attribute_document_round_trip utf8_flag ss padding sysattr decls t H1 H2 H3 H4 H5 H6 H7). reflexivity.
+  intros H1 H2 H3 H4 H5 H6 H7 H8.
+  rewrite (AxmlAttrs.manifest_document_round_trip utf8_flag ss padding sysattr ids decls t H1 H2 H3 H4 H5 H6 H7 H8). reflexivity.
 Qed.
